@@ -473,5 +473,11 @@ func (v *ViewExpr) EvalName() string {
 // hashAttrAndView computes a hash for an attribute and a view that returns the
 // same value for two attributes and views that produce the same projected type.
 func hashAttrAndView(att *AttributeExpr, view string) string {
+	if ut, ok := att.Type.(UserType); ok {
+		// A user type is identified by its name: its structural hash changes while
+		// its attributes are being replaced by their projections, which would make
+		// the lookup of a recursive user type miss forever.
+		return userTypePrefix + ut.Name() + "::" + view
+	}
 	return Hash(att.Type, false, false, false) + "::" + view
 }
